@@ -83,7 +83,7 @@ def frozen_global_history(payload):
 
 def run(ctx):
     rng = np.random.default_rng(ctx.seed)
-    ctx.proof_layer(allowed_axioms=(), coq_deps=[])
+    ctx.proof_layer(allowed_axioms=(), coq_deps=[], gen=["ng_prange", "ng_njit", "ng_noop"])
     core.note_drift(ctx, ANCHORS)
     # source-derived (regenerated on every run): no compiled function may read a module global that the module rebinds - the
     # compiler freezes the value at its first call, the interpreter does not
